@@ -379,7 +379,7 @@ fn bitcoin_tx(rng: &mut ChaCha20Rng) -> Vec<u8> {
     use elements::bitcoin::{self, absolute, transaction, Amount, OutPoint, ScriptBuf, Sequence, TxIn, TxOut, Witness};
     use elements::bitcoin::hashes::Hash;
     let t = bitcoin::Transaction { version: transaction::Version(2), lock_time: absolute::LockTime::ZERO,
-        input: vec![TxIn { previous_output: OutPoint::new(bitcoin::Txid::from_byte_array(r32(rng)), 1), script_sig: ScriptBuf::new(), sequence: Sequence::MAX, witness: Witness::new() }],
+        input: vec![TxIn { previous_output: OutPoint::new(bitcoin::Txid::from_byte_array(r32(rng)), 1), script_sig: ScriptBuf::new(), sequence: Sequence::MAX, witness: if rng.gen_range(0..3) > 0 { Witness::from_slice(&[rbytes(rng, 71), rbytes(rng, 33)]) } else { Witness::new() } }],
         output: vec![TxOut { value: Amount::from_sat(rng.gen_range(1..100000)), script_pubkey: ScriptBuf::from_bytes(script(rng)) }] };
     bitcoin::consensus::serialize(&t)
 }
